@@ -108,7 +108,7 @@ def discharge(ob, tier="quick", want_model=True):
         # strategy leaves `unknown`; unsat is a proof, sat yields the model that the native replay then judges
         try:
             sl = z3.SolverFor(ob.logic)
-            sl.set("rlimit", rl)
+            sl.set("rlimit", max(rl // 3, 1_000_000))
             for c in ob.pc:
                 sl.add(c)
             sl.add(z3.Not(goal))
@@ -126,6 +126,13 @@ def discharge(ob, tier="quick", want_model=True):
                     ob.model = model_dict(ob.zmodel)
                 except Exception:
                     ob.model = {}
+            ob.time = time.time() - t0
+            return ob
+        if _has_quant(ob.pc, goal):
+            # the contract chose its strategy (e-matching for proofs, the logic's solver for counter-models): the
+            # generic fall-back chain below only repeats the search at many times the cost
+            ob.status, ob.backend = "unknown", "z3-%s(api, e-matching + logic %s)" % (z3.get_version_string(), ob.logic)
+            ob.detail = "neither proved by e-matching nor refuted with logic %s within the budget" % ob.logic
             ob.time = time.time() - t0
             return ob
     s = _solver(ob.pc, goal, rl)
